@@ -86,6 +86,14 @@ func Open(options Options) (*DB, error) {
 		return nil, ErrDatabaseIsUsing
 	}
 
+	// 之后任一步骤失败都必须释放文件锁, 否则本进程存活期间该目录无法再次打开
+	opened := false
+	defer func() {
+		if !opened {
+			_ = fileLock.Unlock()
+		}
+	}()
+
 	// 初始化 DB 实例
 	db := &DB{
 		options:         options,
@@ -160,6 +168,7 @@ func Open(options Options) (*DB, error) {
 		}()
 	}
 
+	opened = true
 	return db, nil
 }
 
